@@ -158,11 +158,56 @@ def _freeze_obj(obj, depth, seen):
     for v in vals:
         if isinstance(v, _CONTAINERS):
             _freeze_obj(v, depth + 1, seen)
+        elif str(getattr(type(v), "__module__", "")).split(".")[0] == _PREFIX[0] and id(v) not in seen \
+                and not isinstance(v, type):
+            # an object of the package kept in a process-wide container (e.g. the error objects of the default
+            # errors_map): its attributes are process state as well
+            _freeze_instance(v, depth + 1, seen)
+
+
+_FROZEN_ATTRS: list = []
+_PREFIX = ["ombott"]
+_EXC_ATTRS = ("__traceback__", "__context__", "__cause__")
+
+
+def _attrs_of(o):
+    out = {}
+    for klass in type(o).__mro__:
+        for n in getattr(klass, "__slots__", ()) or ():
+            if isinstance(n, str) and not n.startswith("__"):
+                try:
+                    out[n] = object.__getattribute__(o, n)
+                except AttributeError:
+                    pass
+    d = getattr(o, "__dict__", None)
+    if isinstance(d, dict):
+        out.update(d)
+    if isinstance(o, BaseException):
+        for n in _EXC_ATTRS:
+            out[n] = getattr(o, n, None)
+    return out
+
+
+def _freeze_instance(o, depth, seen):
+    if id(o) in seen or depth > 4:
+        return
+    seen.add(id(o))
+    saved = _attrs_of(o)
+    _FROZEN_ATTRS.append((o, saved))
+    for n, v in saved.items():
+        if n in _EXC_ATTRS:
+            continue
+        if isinstance(v, _CONTAINERS):
+            _freeze_obj(v, depth + 1, seen)
+        elif str(getattr(type(v), "__module__", "")).split(".")[0] == _PREFIX[0] and not isinstance(v, type):
+            _freeze_instance(v, depth + 1, seen)
 
 
 def freeze_process_state(prefix: str = "ombott") -> int:
     """remember the content of every module-level / class-level container of the package under test"""
     del _FROZEN[:]
+    del _FROZEN_ATTRS[:]
+    _PREFIX[0] = prefix
     seen: set = set()
     for mname, m in sorted(sys.modules.items()):
         if m is None or not (mname == prefix or mname.startswith(prefix + ".")):
@@ -191,6 +236,19 @@ def restore_process_state() -> None:
         else:
             obj.clear()
             obj.extend(copy)
+    for o, saved in _FROZEN_ATTRS:
+        d = getattr(o, "__dict__", None)
+        if isinstance(d, dict):
+            for k in [k for k in d if k not in saved]:
+                del d[k]
+        for n, v in saved.items():
+            try:
+                if n in _EXC_ATTRS or not (isinstance(d, dict) and n in d):
+                    setattr(o, n, v)
+                else:
+                    d[n] = v
+            except (AttributeError, TypeError):
+                pass
 
 
 def run_native(fn: Callable, args: Dict[str, Any]):
